@@ -46,6 +46,9 @@ del _cls
 
 def process_signature(app, what, name, obj, options,
                       sig, return_annotation):
+    if '.' not in name:
+        # a module: nothing to fetch from, and nothing with a signature
+        return sig, return_annotation
     try:
         parent, obj = fetch_dotted_name(name)
     except AttributeError:
